@@ -67,12 +67,13 @@ def run(ctx):
         ctx.ob("C21.D5-head-result-restored", cname(f, h, "the exhausted generator is the one popped"), ok, "" if ok else "identity of the exhausted generator changed", where=where(f, h))
     # exceptions in head/tail go to the plan below
     eh = [h for s in A.walk_stmts(f.node.body) if isinstance(s, ast.Try) for h in s.handlers
-          if h.type is not None and A.norm(h.type) == "Exception" and h.name and any("plan_stack.pop()" in A.norm(x) for x in h.body)]
-    for h in eh:
-        ok = any(isinstance(x, ast.If) and A.norm(x.test) == "plan_stack" and any(A.norm(y) == f"exception = {h.name}" for y in x.body)
-                 and isinstance(x.body[-1], ast.Continue) for x in h.body)
-        ctx.ob("C21.D5-exceptions-propagate-down", cname(f, h, "exception from a head/tail is thrown into the plan below"), ok,
-               "" if ok else "an exception raised while running inserted messages does not reach the host plan", where=where(f, h))
+          if h.type is not None and A.norm(h.type) == "Exception" and any("plan_stack.pop()" in A.norm(x) for x in h.body)]
+    for i, h in enumerate(eh):
+        ok = bool(h.name) and any(isinstance(x, ast.If) and A.norm(x.test) == "plan_stack" and any(A.norm(y) == f"exception = {h.name}" for y in x.body)
+                                  and isinstance(x.body[-1], ast.Continue) for x in h.body)
+        branch = "throw branch" if any("throw(exception)" in A.norm(x) for t in A.walk_stmts(f.node.body) if isinstance(t, ast.Try) and h in t.handlers for x in t.body) else "send branch"
+        ctx.ob("C21.D5-exceptions-propagate-down", cname(f, None, f"{branch}: the exception the dead head/tail raised is what the plan below receives"), ok,
+               "" if ok else "the plan below is thrown a stale exception instead of the one the inserted plan actually raised", nontrivial=True, where=where(f, h))
     ctx.expect("C21.D5-exceptions-propagate-down", 2)
     # inserted messages are not re-processed: identity bookkeeping + single_gen re-yields the same object
     ok = any(A.norm(x) == "msgs_seen[id(msg)] = msg" for x in ins.body)
